@@ -357,6 +357,16 @@ func (d *Driver) faultRuns(runs int) { d.faultRunsOf(runs, "faults", "") }
 func (d *Driver) faultRunsOf(runs int, name, classFilter string) {
 	for i := 0; i < runs; {
 		scn := d.randomScenario("faults", 2, 3, true)
+		if name == "persfaults" {
+			// several callers, no in-memory merges: the persister writes and re-loads several segments per round
+			scn = d.randomScenario("persfaults", 1, 1, true)
+			scn.Clients = nil
+			for c := 0; c < 3+d.Rng.Intn(3); c++ {
+				scn.Clients = append(scn.Clients, []BatchSpec{{Ops: randomOps(d.Rng, allIds, true)}, {Ops: randomOps(d.Rng, allIds, true), CB: d.Rng.Intn(2) == 0}})
+			}
+			scn.Opts.MinMemMerge, scn.Opts.Merge = 100, "none"
+			scn.Readers = 0
+		}
 		if name == "filefaults" || name == "mergefaults" {
 			scn = d.mergeScenario()
 			scn.Opts.Path = "FS"
@@ -534,6 +544,16 @@ func (d *Driver) RunFamily(fam string, runs int) {
 	case "core", "":
 		for i := 0; i < runs; i++ {
 			scn := d.randomScenario("core", 3, 3, false)
+			if i%10 == 7 {
+				// many segments: one caller, a dozen batches, no merges (roots with more than ten segments, some of them
+				// emptied completely by later batches)
+				var bs []BatchSpec
+				for b := 0; b < 12+r.Intn(3); b++ {
+					bs = append(bs, BatchSpec{Ops: randomOps(r, allIds, true), CB: r.Intn(4) == 0})
+				}
+				scn.Clients = [][]BatchSpec{bs}
+				scn.Opts.Merge, scn.Opts.MinMemMerge = "none", 100
+			}
 			if i%5 == 4 {
 				// batch objects re-used after a delete-only (or empty) batch while another caller writes the same ids
 				scn.Opts.ReuseBatch = true
@@ -675,6 +695,9 @@ func (d *Driver) RunFamily(fam string, runs int) {
 		d.faultRuns(runs)
 	case "filefaults":
 		d.faultRunsOf(runs, "filefaults", "RemoveEnd")
+	case "persfaults":
+		// failures only on the persister's re-loading of the segments it has just written
+		d.faultRunsOf(runs, "persfaults", "pers:LoadEnd")
 	case "mergefaults":
 		// merge-heavy scenarios, failures only on the merger's own directory operations (Persist / Load of the merged segment)
 		d.faultRunsOf(runs, "mergefaults", "merg:")
